@@ -23,7 +23,7 @@ klass('_Neighbors',
               'decisions': 'aseq', 'rewards': 'rseq', 'contexts': 'mat', 'arm_to_features': 'none',
               'distance_quantile': 'none'},
       views=[('lp.arms', 'arms'), ('lp.rng', 'rng')], setup=_history_setup,
-      inv=['INV(self.lp)~soft',
+      inv=['INV(self.lp)~soft~pop',
            # C03: the stored history is row-aligned
            '[C03,C17,hist.aligned] is_none(self.decisions) or (slen(self.decisions) == slen(self.rewards) and '
            'rows(self.contexts) == slen(self.decisions) and cols(self.contexts) >= 1)',
@@ -32,7 +32,7 @@ klass('_Neighbors',
            # C03: with an empty neighbourhood every arm's expectation is NaN
            '[C03,nan.exp] ' + forall_arms('isnan(val(self.arm_to_expectation, a))'),
            # C03: the empty-neighbourhood distribution covers the arms (broken by add_arm / remove_arm: known finding D13)
-           '[C03,C08,nhood.plen] is_none(self.no_nhood_prob_of_arm) or slen(self.no_nhood_prob_of_arm) == slen(self.arms)',
+           '[C03,C08,arms.nhood.plen] is_none(self.no_nhood_prob_of_arm) or slen(self.no_nhood_prob_of_arm) == slen(self.arms)',
            # C14: once the neighbourhood policy has converted the rewards, the learning policy must not convert again
            '[C14,ts.flag] (not %s) or is_none(self.lp.binarizer) or is_none(self.decisions) or '
            'self.lp.is_contextual_binarized' % IS_TS,
@@ -72,7 +72,7 @@ def idx_param(run, name):
     pass
 
 
-LP_READY = ['INV(lp)~soft', 'lp.arms == self.arms', 'slen(self.arms) > 0']
+LP_READY = ['INV(lp)~soft~pop', 'lp.arms == self.arms', 'slen(self.arms) > 0']
 HIST = ['not is_none(self.decisions)', 'INV.hist', 'INV.ts']
 # The value a row gets from a non-empty neighbourhood: the learning policy lp (a private copy, freshly seeded) is
 # trained from scratch on exactly the selected rows and then asked.  The contract is *functional*: the value is a
@@ -90,14 +90,14 @@ fn('neighbors._Neighbors._get_nhood_predictions', props='C03 C05 C07 C09 C10 C11
           'self.rewards', 'self.contexts'],
    ensures=['[C08,member] mem(self.arms, result) if is_predict else keys(result) == self.arms',
             # lp is left in a consistent (freshly trained) state
-            'INV(lp)~soft', 'lp.arms == self.arms',
+            'INV(lp)~soft~pop', 'lp.arms == self.arms',
             '(not isinstance(lp, _ThompsonSampling)) or is_none(lp.binarizer) or lp.is_contextual_binarized',
             '(not isinstance(lp, _ThompsonSampling)) or (lp.binarizer == old(lp.binarizer) and '
             'lp.is_contextual_binarized == old(lp.is_contextual_binarized))'])
 
 fn('neighbors._Neighbors._get_no_nhood_predictions', props='C03 C08 C09',
    params={'lp': 'like:self.lp', 'is_predict': 'flag'},
-   requires=['INV.arms', 'INV.keys', 'INV.nan', 'INV.nhood', 'slen(self.arms) > 0'],
+   requires=['INV.arms', 'INV.keys', 'INV.nan', 'slen(self.arms) > 0'],
    modifies=['lp.rng.rng.state'], result=nh_result,
    functional=True, reads=['rngstate(lp.rng)', 'self.arms', 'self.no_nhood_prob_of_arm'],
    # C03: NaN for every arm; predict draws an arm from the configured distribution, never one with probability zero
@@ -114,7 +114,7 @@ DIST = 'dists(self.contexts, %s, self.metric)' % ROW
 RADIUS_ROW = ('(self._get_nhood_predictions(%s, within(%s, self.radius), %s, is_predict) if n_within(%s, self.radius) > 0 '
               'else self._get_no_nhood_predictions(%s, is_predict))' % (SEEDED, DIST, ROW, DIST, SEEDED))
 KNN_ROW = 'self._get_nhood_predictions(%s, k_smallest(%s, self.k), %s, is_predict)' % (SEEDED, DIST, ROW)
-LOOP_INV = {0: ['INV(lp)~soft', 'lp.arms == self.arms',
+LOOP_INV = {0: ['INV(lp)~soft~pop', 'lp.arms == self.arms',
                 '(not isinstance(lp, _ThompsonSampling)) or is_none(lp.binarizer) or lp.is_contextual_binarized',
                 '(not isinstance(lp, _ThompsonSampling)) or (lp.binarizer == self.lp.binarizer and '
                 'lp.is_contextual_binarized == self.lp.is_contextual_binarized)']}
@@ -134,7 +134,7 @@ fn('neighbors._KNearest._predict_contexts', props='C03 C05 C08 C09 C10',
             'same_item(result, j, %s)))' % KNN_ROW])
 
 NB_INIT = {**INIT_PARAMS, 'lp': 'obj:' + LPS, 'metric': 'str'}
-NB_INIT_REQ = ['distinct(arms)', 'n_jobs != 0', 'INV(lp)~soft', 'same(lp.arms, arms)', 'same(lp.rng, rng)',
+NB_INIT_REQ = ['distinct(arms)', 'n_jobs != 0', 'INV(lp)~soft~pop', 'same(lp.arms, arms)', 'same(lp.rng, rng)',
                '(not isinstance(lp, _ThompsonSampling)) or not lp.is_contextual_binarized']
 NB_INIT_ENS = ['[alias.arms] same(self.arms, arms)', '[alias.rng] same(self.rng, rng)', 'same(self.lp, lp)',
                'is_none(self.decisions)', 'INV']
@@ -175,3 +175,26 @@ def parallel_predict_contract(cls, row_term, extra_req=()):
 
 parallel_predict_contract('_Radius', RADIUS_ROW)
 parallel_predict_contract('_KNearest', KNN_ROW, ['self.k <= slen(self.decisions)'])
+
+
+# ------------------------------------------------------------------------------------ arm changes (C03, C08)
+NB_MODS = ['self.arm_to_expectation{}', 'self.arm_to_status{}', 'self.lp.**']
+fn('base_mab.BaseMAB.add_arm', cls='_Neighbors', props='C03 C08 C14',
+   params={'arm': 'arm', 'binarizer': 'opt:binarizer'},
+   requires=['INV~arms', 'self.arms == appended(keys(self.arm_to_expectation), arm)',
+             'not inkeys(self.arm_to_expectation, arm)',
+             'keys(self.lp.arm_to_expectation) == keys(self.arm_to_expectation)'],
+   modifies=NB_MODS,
+   # INV includes nhood.plen: a configured empty-neighbourhood distribution no longer matches the arms (known finding D13)
+   ensures=['INV', '[C03,C08,neutral] isnan(val(self.arm_to_expectation, arm)) and ' + status_fresh('arm'),
+            '[C03,hist] self.decisions == old(self.decisions) and self.rewards == old(self.rewards) and '
+            'self.contexts == old(self.contexts)'])
+fn('base_mab.BaseMAB.remove_arm', cls='_Neighbors', props='C03 C08',
+   params={'arm': 'arm'},
+   requires=['INV~arms', 'self.arms == removed(keys(self.arm_to_expectation), arm)', 'inkeys(self.arm_to_expectation, arm)',
+             'keys(self.lp.arm_to_expectation) == keys(self.arm_to_expectation)',
+             # removing the only arm of a Softmax / Popularity learning policy raises after the arm list was changed
+             'slen(self.arms) > 0'],
+   modifies=NB_MODS,
+   ensures=['INV', '[C03,hist] self.decisions == old(self.decisions) and self.rewards == old(self.rewards) and '
+            'self.contexts == old(self.contexts)'])
